@@ -46,6 +46,8 @@ func C19(c *Ctx) {
 		return
 	}
 	c.R.Fn(fname(run), fname(F))
+	c.R.Rule("C19-R7", "E3", "patterns reach the matcher JSON-decoded", 1)
+	c19Canonical(c, F, matchCall)
 	isOutputElem := func(base ssa.Value) bool {
 		// &iop.OutputSet[i]
 		for _, d := range phiDefs(base, nil, map[ssa.Value]bool{}) {
